@@ -17,7 +17,7 @@ RULE = (
     "inputs; (b) stand-alone array types cs.T[n], cs.T[None] over every element kind incl. null-terminated arrays of "
     "all-integer structures; (c) x[EOF] with ragged tails; (d) dumping a fixed non-character array with len != n. Oracle: "
     "independent reference decode (element count, contents in C order, consumed bytes incl. the terminator), dumps == "
-    "reference encoding (terminator re-appended), ragged EOF tail => whole elements or an error but never a partial "
+    "reference encoding (terminator re-appended), ragged EOF tail => whole elements (stream left behind them) or an error but never a partial "
     "element, wrong-length dump must raise and right-length must succeed. Non-trivial = element count >= 2 or a dynamic "
     "length form, with element size > 1 or a composite element; distinct by (definition, cfg, input)."
 )
@@ -257,11 +257,14 @@ def _run_ragged(case, ctx, m):
     cs = m.cstruct(endian=case["endian"])
     cs.load(f"struct Root {{ uint8 h; {et} x[EOF]; }};", compiled=case["compiled"])
     data = bytes.fromhex(case["data"])
-    r = lib(cs.Root, io.BytesIO(data))
+    rs = io.BytesIO(data)
+    r = lib(cs.Root, rs)
     size = SCALARS[et][1]
     if isinstance(r, Err):
         ctx.count("ragged:raised:" + r.type)
     else:
+        if rs.tell() != 1 + n * size:
+            raise Violation("partial-element", f"{et} x[EOF] over {len(data) - 1} bytes ({n} whole elements + ragged tail) returned {libside.cplain(r.x)!r} and left the stream at {rs.tell()}: the value ends at {1 + n * size}, the bytes of the incomplete element were swallowed")
         whole = data[1 : 1 + n * size]
         sem = Sem([], {"endian": case["endian"], "align": False})
         want, _ = sem.decode({"k": "a", "t": S(et), "len": ["fixed", n]}, whole, 0)
